@@ -2,10 +2,10 @@ package interp
 
 import (
 	"fmt"
-	"os"
 	"go/constant"
 	"go/token"
 	"go/types"
+	"os"
 	"strings"
 
 	"golang.org/x/tools/go/ssa"
@@ -16,15 +16,15 @@ import (
 
 // World is shared by all paths of a job.
 type World struct {
-	Prog     *ssa.Program
-	Sizes    types.Sizes
-	dynTypes []types.Type
-	Chans    []*Chan
-	Arenas   []*Arena
-	Params   map[string]int
-	Objs     []*Object
-	WG       map[string]int64 // WaitGroup counters after set-up
-	Timers   []*Chan
+	Prog       *ssa.Program
+	Sizes      types.Sizes
+	dynTypes   []types.Type
+	Chans      []*Chan
+	Arenas     []*Arena
+	Params     map[string]int
+	Objs       []*Object
+	WG         map[string]int64 // WaitGroup counters after set-up
+	Timers     []*Chan
 	symLeaves  map[string][2]*term.T
 	symLayouts map[string]*symLayout
 	// statistics
@@ -82,19 +82,19 @@ type deferred struct {
 }
 
 type Frame struct {
-	fn       *ssa.Function
-	blk      *ssa.BasicBlock
-	prev     *ssa.BasicBlock
-	idx      int
-	regs     map[ssa.Value]Value
-	free     []Value
-	defers   []*deferred
+	fn        *ssa.Function
+	blk       *ssa.BasicBlock
+	prev      *ssa.BasicBlock
+	idx       int
+	regs      map[ssa.Value]Value
+	free      []Value
+	defers    []*deferred
 	callInstr ssa.Value // register in the caller receiving the result
-	onRet    func(Value)
-	catch    bool // vrt.Panics boundary
-	barrier  bool // nested-run boundary
-	visited  map[*ssa.BasicBlock]int
-	visitDec map[*ssa.BasicBlock]int
+	onRet     func(Value)
+	catch     bool // vrt.Panics boundary
+	barrier   bool // nested-run boundary
+	visited   map[*ssa.BasicBlock]int
+	visitDec  map[*ssa.BasicBlock]int
 }
 
 type goPanicSig struct {
@@ -136,35 +136,36 @@ type Machine struct {
 	pending [][]int
 	known   map[int]bool
 
-	globals  map[*ssa.Global]*Object
-	initDone map[*ssa.Package]bool
-	nobj     int
-	nmap     int
-	inSetup  bool
+	globals   map[*ssa.Global]*Object
+	initDone  map[*ssa.Package]bool
+	nobj      int
+	nmap      int
+	inSetup   bool
 	trackObjs bool
 
 	// BMC extraction
-	procMode bool
-	stopped  bool
+	procMode     bool
+	stopped      bool
 	symDecisions int
-	cut      bool
-	skipVis  bool // execute the pending visible instruction as a step of its own (atomic op, racy load/store)
-	overlay  map[*Object]Value
-	symHeap  map[*Object]Value
-	reads    map[string]bool
-	writes   map[string]bool
-	trackRW  bool
-	asserts  []assertRec // BMC: assertions met on the path
-	covers   []string
-	inputs   []*term.T // fresh variables created on this path
-	procs    []*Proc   // setup: registered processes
-	finals   []labeledFn
-	invars   []labeledFn
-	curProc  *Proc
-	pathUpd  map[*term.T]*term.T
-	bmcHooks *bmcHooks
+	escaped      map[*Object]bool
+	cut          bool
+	skipVis      bool // execute the pending visible instruction as a step of its own (atomic op, racy load/store)
+	overlay      map[*Object]Value
+	symHeap      map[*Object]Value
+	reads        map[string]bool
+	writes       map[string]bool
+	trackRW      bool
+	asserts      []assertRec // BMC: assertions met on the path
+	covers       []string
+	inputs       []*term.T // fresh variables created on this path
+	procs        []*Proc   // setup: registered processes
+	finals       []labeledFn
+	invars       []labeledFn
+	curProc      *Proc
+	pathUpd      map[*term.T]*term.T
+	bmcHooks     *bmcHooks
 
-	choiceLog map[string]string // name#n -> value (for replay files)
+	choiceLog    map[string]string // name#n -> value (for replay files)
 	onNontrivial func()
 	choiceSeq    [][2]string
 	constCache   map[*ssa.Const]Value
@@ -173,7 +174,7 @@ type Machine struct {
 	touched      []*Chan
 	arenaAllocFn func(types.Type, *Frame) Value
 	arenaStoreFn func(*PtrV, Value)
-	fuel      int
+	fuel         int
 
 	R *Results
 }
@@ -185,25 +186,25 @@ type assertRec struct {
 
 // Results accumulates what a job did.
 type Results struct {
-	Paths       int
-	Infeasible  int
-	AssertsHit  map[string]int
-	AssertsTriv map[string]int
-	Covers      map[string]int
-	Violations  []*Violation
-	Unsupported []string
-	Unknown     []string
-	Samples     []string
-	Nontrivial  int
-	Syntactic   int // assertions decided by term normalisation (condition folded to true)
+	Paths         int
+	Infeasible    int
+	AssertsHit    map[string]int
+	AssertsTriv   map[string]int
+	Covers        map[string]int
+	Violations    []*Violation
+	Unsupported   []string
+	Unknown       []string
+	Samples       []string
+	Nontrivial    int
+	Syntactic     int // assertions decided by term normalisation (condition folded to true)
 	CrossSample   []CrossQuery
 	CrossChecked  int
 	CrossDisagree int
 	CrossUnknown  int
-	Funcs       map[string]int
-	FuncPtr     map[*ssa.Function]int
-	Stubs       map[string]int
-	MaxDepth    int
+	Funcs         map[string]int
+	FuncPtr       map[*ssa.Function]int
+	Stubs         map[string]int
+	MaxDepth      int
 }
 
 func NewResults() *Results {
@@ -1476,10 +1477,10 @@ func (m *Machine) mapUpdate(x, k, v Value) {
 }
 
 type iterV struct {
-	keys []string
-	m    *MapObj
-	str  string
-	pos  int
+	keys  []string
+	m     *MapObj
+	str   string
+	pos   int
 	isStr bool
 }
 
@@ -1608,6 +1609,9 @@ func (m *Machine) newChan(cap int, et types.Type, name string) *Chan {
 	if cap < 0 {
 		m.goPanic("makechan: size out of range")
 	}
+	if m.procMode && m.bmcHooks != nil && m.bmcHooks.makeChan != nil {
+		return m.bmcHooks.makeChan(m, cap, et, name)
+	}
 	c := &Chan{ID: len(m.W.Chans), Cap: cap, ElemT: et, Name: name}
 	m.W.Chans = append(m.W.Chans, c)
 	return c
@@ -1652,10 +1656,24 @@ func (m *Machine) doSelectSeq(fr *Frame, in *ssa.Select) {
 }
 
 func (m *Machine) doGo(fr *Frame, in *ssa.Go) {
-	if m.procMode {
-		unsupported("goroutine started by a running goroutine")
-	}
 	c := in.Common()
+	if m.procMode {
+		// a goroutine started by a running goroutine: a process that exists from the
+		// beginning but is idle until the spawning transition sets its pc to "start"
+		if m.bmcHooks == nil || m.bmcHooks.spawn == nil || c.IsInvoke() {
+			unsupported("goroutine started by a running goroutine")
+		}
+		f, ok := m.get(fr, c.Value).(*FuncV)
+		if !ok || f == nil || f.Fn == nil {
+			unsupported("go of a non-function value")
+		}
+		var args []Value
+		for _, a := range c.Args {
+			args = append(args, m.get(fr, a))
+		}
+		m.bmcHooks.spawn(m, fr, in, f, args)
+		return
+	}
 	p := &Proc{Lib: true}
 	if c.IsInvoke() {
 		unsupported("go with interface method")
